@@ -558,3 +558,9 @@ V("silent-traverse-from-while-true", "C08", HX, _TRAV_OLD, _TRAV_MACHINE, expect
 V("c08-traverse-from-while-true-skips-two", "C08", HX, _TRAV_OLD, '    def _traverse_from(\n        self, node: RawHexaryNode, trie_key\n    ) -> Tuple[RawHexaryNode, Nibbles]:\n        """\n        Traverse down the trie from the given node, using the trie_key to navigate.\n\n        At each node, consume a prefix from the key, and navigate to its child. Repeat\n        with that child node and so on, until:\n        - there is no key remaining, or\n        - the child node is a blank node, or\n        - the child node is a leaf node\n\n        :return: (the deepest child node, the unconsumed suffix of the key)\n        :raises MissingTraversalNode: if a node body is missing from the database\n        """\n        remaining_key = trie_key\n        while True:\n            if len(remaining_key) == 0:\n                # navigated down the full key\n                return node, Nibbles(())\n\n            node_type = get_node_type(node)\n\n            if node_type == NODE_TYPE_BRANCH:\n                next_node_pointer = node[remaining_key[0]]\n                remaining_key = remaining_key[2:]\n            elif node_type == NODE_TYPE_EXTENSION:\n                try:\n                    next_node_pointer, remaining_key = self._traverse_extension(\n                        node, remaining_key\n                    )\n                except _PartialTraversal:\n                    # could only descend part-way into an extension node\n                    return node, remaining_key\n            elif node_type == NODE_TYPE_LEAF:\n                leaf_key = extract_key(node)\n                if not key_starts_with(leaf_key, remaining_key):\n                    # The trie key and leaf node key branch away from each other, so\n                    # there is no node at the specified key.\n                    return BLANK_NODE, ()  # type: ignore # mypy thinks BLANK_NODE != b\'\' # noqa: E501\n                return node, remaining_key\n            elif node_type == NODE_TYPE_BLANK:\n                return BLANK_NODE, ()  # type: ignore # mypy thinks BLANK_NODE != b\'\'\n            else:\n                raise Exception("Invariant: This shouldn\'t ever happen")\n\n            try:\n                node = self.get_node(next_node_pointer)\n            except KeyError as exc:\n                used_key = trie_key[: len(trie_key) - len(remaining_key)]\n\n                raise MissingTraversalNode(exc.args[0], used_key)\n\n', expect="inconclusive")
 V("c08-branch-hop-consumes-two", "C08", HX, "                next_node_pointer = node[remaining_key[0]]\n                remaining_key = remaining_key[1:]", "                next_node_pointer = node[remaining_key[0]]\n                remaining_key = remaining_key[2:]", rule="ABS1")
 V("c01-branch-hop-consumes-two", "C01", HX, "                next_node_pointer = node[remaining_key[0]]\n                remaining_key = remaining_key[1:]", "                next_node_pointer = node[remaining_key[0]]\n                remaining_key = remaining_key[2:]", rule="ABS1")
+
+# guarded remove() as the membership test of mark_all_complete: right and wrong spellings
+_MAC_OLD = "            if prefix not in new_unexplored_prefixes:\n                raise ValidationError(\n                    f\"When marking {prefix} complete, could not \"\n                    f\"find in {new_unexplored_prefixes!r}\"\n                )\n\n            new_unexplored_prefixes.remove(prefix)\n"
+V("silent-mark-all-complete-guarded-remove", "C11", FG, _MAC_OLD, "            try:\n                new_unexplored_prefixes.remove(prefix)\n            except KeyError:\n                raise ValidationError(f\"When marking {prefix} complete, could not find it\") from None\n", expect="silent", props=["C11", "C10"])
+V("c11-mark-all-complete-swallows-unknown", "C11", FG, _MAC_OLD, "            try:\n                new_unexplored_prefixes.remove(prefix)\n            except KeyError:\n                pass\n", rule="FOGPOL")
+V("c11-mark-all-complete-discard", "C11", FG, _MAC_OLD, "            new_unexplored_prefixes.discard(prefix)\n")
